@@ -4,7 +4,6 @@ from common import *
 
 # level claimed per property (kept in sync with MANIFEST.json by engine/selftest)
 PROP_LEVEL = {
-    "C17": "other",
 }
 
 GLOBAL_TRUSTED = [
